@@ -33,6 +33,9 @@ def run_native(scratch, fields, release=False):
             out[k] = v
     if p.returncode != 0 and not out:
         out["crash"] = (p.stderr or "")[-400:]
+    if out.get("panic", "").startswith("REPLAY-HARNESS") or any(k.startswith("unknown_") for k in out):
+        # a defect of the replay driver itself, never evidence about the code under test
+        out = {"harness_error": str(out)}
     return out
 
 
